@@ -41,7 +41,9 @@ REQUIRED = [
     'eliminator_ok_removes_exactly_rejected', 'eliminator_removes_exactly_rejected_partial',
     'eliminator_removes_exactly_rejected_witness', 'eliminator_raises_only_escaped_errors', 'eliminator_keeps_counts',
     'approval_candidateError_iff', 'approval_voteError_iff', 'scoreBase_typeError_iff', 'enumscore_typeError_iff',
+    'range_typeError_iff',
     'valid_approval_perm', 'validScoreBase_perm', 'valid_enumscore_perm', 'valid_range_perm', 'accept_order_independent',
+    'valid_ranked_perm', 'accept_ranked_order_independent',
 ]
 UNPROVED = [
     'validate_iff_valid_ranked (false of the code: a mutable set at a rank is accepted; see _partial/_witness)',
@@ -54,21 +56,25 @@ REQUIRED_COUNTERS = [
     'equal_bounds', 'rank_dict', 'sum_dict', 'shared_rank', 'duplicate', 'dup_across_shared_rank', 'not_admitted',
     'nom:basic', 'nom:person', 'nom:party', 'blank', 'coalition', 'wrong_container', 'nested_candidate',
     'empty_ballot', 'level_miss', 'score_out_of_range', 'sum_boundary', 'nonnumeric_score', 'malformed_stream',
-    'elim_some_removed', 'elim_all_kept',
+    'elim_some_removed', 'elim_all_kept', 'via_checker_objects', 'via_plain_dicts', 'op:shape',
 ]
 RULE = ('ballots from the grammar (str, Person with/without party, PoliticalParty, Coalition, blank votes, int, Fraction, None, '
         'other object, tuple, list, frozenset, set, dict, nested to depth 3) in a mostly-valid stream (valid ballot for the '
         'configuration, bounds chosen relative to the ballot so that every inclusive boundary is hit from both sides, then one '
         'mutation in 45% of the cases) and a malformed stream (random objects); configurations: Simple/Approval/Ranked/EnumScore/'
         'Range x bounds None/one-sided/equal/crossing x per-rank and per-count bound dictionaries x Basic/Person/Party nominators '
-        'with every flag combination; op eliminate on dictionaries of 1-7 hashable ballots. Non-trivial = a container ballot or an '
-        'eliminate call; distinct by canonical request.')
+        'with every flag combination, built through bound tuples / dictionaries and (20%) through explicit checker objects; op '
+        'eliminate on dictionaries of 1-7 hashable ballots. Thorough tier adds the exhaustive scope: every object of depth <= 2 '
+        'over six atoms (two strings, a Person, a blank vote, 1, None) with containers of at most two members x 72 configurations. '
+        'Non-trivial = a container ballot or an eliminate call; distinct by canonical request.')
 NOT_VERIFIED = [
     'numbers are modelled by their exact value (int and Fraction are not distinguished; Decimal and float are outside the grammar)',
     'a Python set is modelled as the list of its members in the iteration order observed on the real object (hash order)',
     'equality / hashing of Python values is modelled as structural equality of encodings (candidate objects by identity)',
     'candidate classes are modelled by kind (Person with/without candidacy_for, PoliticalParty, Coalition, BlankVoteOption); '
-    'user-defined candidate classes, bool scores and explicit checker dictionaries passed as plain dicts are outside the grammar',
+    'user-defined candidate classes and bool scores are outside the grammar',
+    'validators constructed with explicit per-rank / per-count checker dictionaries (plain dicts) are checked by the oracle only, '
+    'not modelled in Lean (they raise KeyError for unlisted keys: open finding)',
     'the defaultdict of per-rank / per-count checkers is modelled as lookup-with-default',
 ]
 EXHAUSTIVE = {'thorough': True}
@@ -235,25 +241,46 @@ def mk_nominator(n):
 
 
 def mk_validator(val, pool):
+    """the real validator of a configuration.  val['via'] == 'checkers': the scalar bounds are passed as explicit
+    VoteMagnitudeChecker objects next to contradicting bound tuples (which must be ignored);
+    val['via'] == 'plain_dicts': per-rank / per-count checkers are passed as explicit plain dictionaries."""
     import votelib.vote as vv
     nom = mk_nominator(val['nom'])
     vt = val['vt']
+    via = val.get('via')
+    junk = (7, 7)
+
+    def scalar(bounds_kw, checker_kw, b, name='count'):
+        if via == 'checkers':
+            return {bounds_kw: junk, checker_kw: vv.VoteMagnitudeChecker(py_bounds(b), name)}
+        return {bounds_kw: py_bounds(b)}
+
+    def mapping(bounds_kw, checker_kw, bm, name='count'):
+        if bm is None:
+            return {}
+        if via == 'plain_dicts' and 'by' in bm:
+            return {bounds_kw: junk, checker_kw: {k: vv.VoteMagnitudeChecker(py_bounds(b), name) for k, b in bm['by']}}
+        return {bounds_kw: py_boundmap(bm)}
+
     if vt == 'simple':
         return vv.SimpleVoteValidator(nominator=nom)
     if vt == 'approval':
-        return vv.ApprovalVoteValidator(vote_count_bounds=py_bounds(val['count']), nominator=nom)
+        return vv.ApprovalVoteValidator(nominator=nom, **scalar('vote_count_bounds', 'count_checker', val['count']))
     if vt == 'ranked':
-        if val.get('rank') is None:
-            return vv.RankedVoteValidator(total_vote_count_bounds=py_bounds(val['total']), nominator=nom)
-        return vv.RankedVoteValidator(total_vote_count_bounds=py_bounds(val['total']),
-                                      rank_vote_count_bounds=py_boundmap(val['rank']), nominator=nom)
+        return vv.RankedVoteValidator(nominator=nom, **scalar('total_vote_count_bounds', 'total_count_checker', val['total']),
+                                      **mapping('rank_vote_count_bounds', 'rank_vote_count_checkers', val.get('rank')))
+    kw = dict(scalar('allowed_scorings', 'n_scorings_checker', val['n']))
+    kw.update(mapping('sum_bounds', 'sum_checkers', val['sum'], 'sum'))
     if vt == 'enum':
-        return vv.EnumScoreVoteValidator([pool.build(x) for x in val['levels']], allowed_scorings=py_bounds(val['n']),
-                                         sum_bounds=py_boundmap(val['sum']), nominator=nom)
+        return vv.EnumScoreVoteValidator([pool.build(x) for x in val['levels']], nominator=nom, **kw)
     if vt == 'range':
-        return vv.RangeVoteValidator(range=py_bounds(val['range']), allowed_scorings=py_bounds(val['n']),
-                                     sum_bounds=py_boundmap(val['sum']), nominator=nom)
+        kw.update(scalar('range', 'range_checker', val['range'], 'range vote value'))
+        return vv.RangeVoteValidator(nominator=nom, **kw)
     raise ValueError(vt)
+
+
+def uses_plain_dicts(val):
+    return val.get('via') == 'plain_dicts' and any(val.get(k) is not None and 'by' in val[k] for k in ('rank', 'sum'))
 
 
 _LAST = [None, None]
@@ -265,8 +292,8 @@ def _built(case):
     if _LAST[0] == key:
         return _LAST[1]
     pool = Pool()
-    validator = mk_validator(case['val'], pool)
-    if case['op'] == 'validate':
+    validator = mk_validator(case['val'], pool) if case['op'] != 'shape' else None
+    if case['op'] in ('validate', 'shape'):
         obj = pool.build(case['vote'])
     else:
         obj = {}
@@ -285,6 +312,15 @@ def impl(case):
             validator.validate(obj)
             return 'ok'
         return guarded(run)
+    if case['op'] == 'shape':
+        def run():
+            try:
+                hash(obj)
+                h = True
+            except TypeError:
+                h = False
+            return {'hashable': h, 'wf': True}       # every object that exists is well-formed
+        return guarded(run)
     if case['op'] == 'eliminate':
         def run():
             out = votelib.convert.InvalidVoteEliminator(validator).convert(obj)
@@ -294,8 +330,13 @@ def impl(case):
 
 
 def model_line(case):
+    if case['op'] == 'shape':
+        pool, validator, obj = _built(case)
+        return {'op': 'shape', 'vote': pool.encode(obj)}
+    if uses_plain_dicts(case['val']):
+        return None          # explicit plain-dict checkers are outside the Lean model (oracle only)
     pool, validator, obj = _built(case)
-    val = dict(case['val'])
+    val = {k: v for k, v in case['val'].items() if k != 'via'}
     if val['vt'] == 'ranked' and val.get('rank') is None:
         val['rank'] = {'all': ['1', '1']}          # the constructor's default
     if val['vt'] == 'enum':
@@ -463,6 +504,8 @@ LIBRARY_ERRORS = ('VoteError', 'CandidateError')
 
 
 def oracle(case, obs):
+    if case['op'] == 'shape':
+        return []
     val = case['val']
     out = []
     if case['op'] == 'validate':
@@ -470,12 +513,14 @@ def oracle(case, obs):
         if obs == 'ok':
             if why:
                 out.append(('accepts_invalid:' + '+'.join(why), f'ballot accepted although {why}'))
-        else:
-            if not why:
-                out.append(('rejects_valid', f'valid ballot rejected with {obs}'))
-            if obs.get('err') not in LIBRARY_ERRORS:
-                out.append((f"raises:{obs.get('err')}:{type_error_class(val, case['vote'])}",
-                            'rejection is not reported as a VoteError / CandidateError'))
+        elif obs.get('err') not in LIBRARY_ERRORS:
+            # the validator did not reject the ballot, it crashed
+            cls = ('explicit_checker_dict' if (obs.get('err') == 'KeyError' and uses_plain_dicts(val))
+                   else type_error_class(val, case['vote']))
+            out.append((f"raises:{obs.get('err')}:{cls}", 'not reported as a VoteError / CandidateError'
+                        + ('' if why else ' (and the ballot is valid)')))
+        elif not why:
+            out.append(('rejects_valid', f'valid ballot rejected with {obs}'))
         return out
     if case['op'] == 'eliminate':
         expected, counts = {}, {}
@@ -506,6 +551,8 @@ def oracle(case, obs):
 def nontrivial(case, obs):
     if case['op'] == 'eliminate':
         return True
+    if case['op'] == 'shape':
+        return False
     e = case['vote']
     return e is not None and any(k in e for k in ('t', 'f', 'l', 'm', 'd'))
 
@@ -874,6 +921,20 @@ def mk_case(val, vote, tags):
     return {'op': 'validate', 'val': val, 'vote': vote, '_tags': list(tags)}
 
 
+def with_via(rng, val, tags):
+    """sometimes build the validator through the alternative constructor arguments"""
+    r = rng.random()
+    if val['vt'] != 'simple' and r < 0.2:
+        val = dict(val)
+        val['via'] = 'checkers'
+        tags.append('via_checker_objects')
+    elif r < 0.26 and any(val.get(k) is not None and 'by' in val[k] for k in ('rank', 'sum')):
+        val = dict(val)
+        val['via'] = 'plain_dicts'
+        tags.append('via_plain_dicts')
+    return val
+
+
 def directed(rng):
     """cases that guarantee every required counter for every seed"""
     basic = {'k': 'basic', 'blank': True}
@@ -908,6 +969,10 @@ def directed(rng):
     out.append(mk_case({'vt': 'approval', 'count': [None, None], 'nom': basic}, {'m': [S(0)]}, ['wrong_container']))
     out.append(mk_case({'vt': 'approval', 'count': ['0', '0'], 'nom': basic}, {'f': []}, ['empty_ballot', 'equal_bounds', 'lower_bound_hit', 'upper_bound_hit']))
     out.append(mk_case({'vt': 'simple', 'nom': {'k': 'basic', 'blank': False}}, Cd('blank', 0), ['blank', 'not_admitted']))
+    out.append(mk_case({'vt': 'approval', 'count': ['1', '2'], 'nom': basic, 'via': 'checkers'}, {'f': [S(0), S(1)]},
+                       ['via_checker_objects', 'upper_bound_hit']))
+    out.append(mk_case({'vt': 'ranked', 'total': [None, None], 'rank': {'by': [[1, ['1', '1']]]}, 'nom': basic, 'via': 'plain_dicts'},
+                       {'t': [S(0), S(1)]}, ['via_plain_dicts', 'rank_dict']))
     # eliminator: all kept / some removed / escaping errors
     val = {'vt': 'ranked', 'total': ['1', '3'], 'rank': None, 'nom': basic}
     out.append({'op': 'eliminate', 'val': val, 'votes': [[{'t': [S(0)]}, '3'], [{'t': [S(0), S(1)]}, '5/2']], '_tags': ['elim_all_kept']})
@@ -971,6 +1036,7 @@ def _gen(rng, tier):
     for _ in range(n_main):
         tags = []
         val, vote = gen_any(rng, tags)
+        val = with_via(rng, val, tags)
         yield mk_case(val, vote, tags)
     for _ in range(2500 if tier == 'quick' else 15000):
         vt = rng.choice(['simple', 'approval', 'ranked', 'enum', 'range'])
@@ -1020,7 +1086,7 @@ def _ex_vals():
         for nb in ([None, None], ['2', '2']):
             for sm in ({'all': [None, None]}, {'all': ['1', '2']}, {'by': [[1, ['1', '1']]]}):
                 vals.append({'vt': 'enum', 'n': nb, 'sum': sm, 'nom': nom, 'levels': [N(1), S(1), None]})
-                for rg in ([None, None], ['1', '1'], ['2', None]):
+                for rg in ([None, None], ['1', '1']):
                     vals.append({'vt': 'range', 'n': nb, 'sum': sm, 'nom': nom, 'range': rg})
     return vals
 
@@ -1034,8 +1100,12 @@ def exhaustive():
 
 def generate(rng, tier):
     """tag after the fact with what the cases actually exercise (verdict of the declarative rule, configuration shape)"""
+    k = 0
     for c in _gen(rng, tier):
         tags = c['_tags']
+        k += 1
+        if c['op'] == 'validate' and k % 7 == 0 and 'exhaustive' not in tags:
+            yield {'op': 'shape', 'vote': c['vote'], '_tags': ['op:shape']}
         val = c['val']
         tags.append('vt:' + val['vt'])
         tags.append('nom:' + val['nom']['k'])
@@ -1082,6 +1152,8 @@ def _shrink_obj(e):
 
 
 def shrink_candidates(case):
+    if case['op'] == 'shape':
+        return
     val = case['val']
     if case['op'] == 'eliminate':
         vs = case['votes']
@@ -1115,8 +1187,10 @@ def shrink_candidates(case):
 
 
 def describe(case):
-    val = case['val']
     pool = Pool()
+    if case['op'] == 'shape':
+        return f"hash({pool.build(case['vote'])!r})"
+    val = case['val']
     nom = val['nom']
     noms = {'basic': f"BasicNominator(allow_blank={nom.get('blank')})",
             'person': f"PersonNominator(allow_independents={nom.get('indep')}, allow_blank={nom.get('blank')})",
